@@ -94,7 +94,7 @@ def prepare(template, data):
 #     <pad> is picked by a symbolic selector from characters that str.splitlines() treats as line
 #     boundaries but the Python tokenizer does not (the AST's line numbers count only \n, \r\n, \r)
 KINDS = ["C", "CB", "CK", "OB", "OK", "IK", "IC", "M", "E"]
-CODE_KINDS = ("C", "CB", "CK", "IC", "CP")
+CODE_KINDS = ("C", "CB", "CK", "IC", "CP", "CS")
 PADS = ["", "\x0c", "\x0b", "\x1c", "\x1d", "\x1e", "\x85", "\u2028", "\u2029"]
 
 
@@ -108,12 +108,15 @@ def _validate_pads() -> None:
 
 
 def _norm(kinds):
-    return [{"CP": "C", "MP": "M"}.get(k, k) for k in kinds]
+    # CS: a code line whose string literal contains the ignore text - not a comment, so an ordinary code line
+    return [{"CP": "C", "MP": "M", "CS": "C"}.get(k, k) for k in kinds]
 
 
 def _line(kind: str, text: str, tail: str, pad: str = "") -> str:
     if kind == "C":
         return "x = 1"
+    if kind == "CS":
+        return 'x = "' + IGNORE_COMMENT + '"'
     if kind == "CP":
         return "x = 1  # n" + pad
     if kind == "MP":
@@ -227,9 +230,9 @@ def h11(l1: int, c1: int, l2: int, c2: int, e1: bool, e2: bool, tsel: int, ssel:
     """
     post: _
     """
-    if excluded(l1=l1, c1=c1, l2=l2, c2=c2, e1=e1, e2=e2, tsel=tsel, ssel=ssel):
-        return skip()
     file_kinds = G.case["kinds"]
+    if excluded(l1=l1, c1=c1, l2=l2, c2=c2, e1=e1, e2=e2, tsel=tsel, ssel=ssel, feat_string_ignore=("CS" in file_kinds)):
+        return skip()
     kinds = _norm(file_kinds)
     pad = PADS[0]
     if any(k in ("CP", "MP") for k in file_kinds):
@@ -383,6 +386,8 @@ def cases(tier: str, seed: int) -> List[Case]:
                 if n == 2 and (_z.crc32(lab.encode()) + seed) % (8 if quick else 2) != 0:
                     continue
                 out.append(Case("h11", lab, {"kinds": list(kinds), "two": False}, timeout=90 if quick else 240, twin=True))
+    for kinds in (("CS",), ("C", "CS"), ("CS", "C")):
+        out.append(Case("h11", "/".join(kinds), {"kinds": list(kinds), "two": False}, timeout=90, twin=True, vacuous_ok=True))
     for n in range(1, maxn + 1):
         for kinds in itertools.product(KINDS, repeat=n):
             if not any(k in CODE_KINDS for k in kinds):
